@@ -79,6 +79,24 @@ static size_t gval(int kind) {   /* 0 bytes, 1 C string, 2 all zero */
     return l;
 }
 
+/* a replacement value of the SAME size as the stored one, identical to it up to and including its first NUL byte and different behind it
+ * (a record whose leading C string stays the same, a little-endian counter, a block that merely starts with 0x00): "the value did not
+ * change" shortcuts that compare as strings, or by size only, keep the old bytes */
+static size_t gval_near(int kind, const unsigned char *old, size_t oldlen) {
+    if (old && oldlen >= 2 && rng_chance(&R, 1, 4)) {
+        size_t z = 0; while (z < oldlen && old[z]) z++;
+        if (z + 1 < oldlen) {
+            memcpy(VB, old, oldlen); vctr++;
+            size_t at = z + 1 + rng_below(&R, (uint32_t)(oldlen - z - 1));
+            VB[at] = (unsigned char)(old[at] + 1 + rng_below(&R, 255));                       /* at least one byte behind the NUL differs */
+            for (size_t i = z + 1; i < oldlen; i++) if (i != at && rng_chance(&R, 1, 2)) VB[i] = (unsigned char)rng_below(&R, 256);
+            vf_count("replacements_equal_up_to_the_first_nul", 1);
+            return oldlen;
+        }
+    }
+    return gval(kind);
+}
+
 /* ---- map model (keys by id) ----------------------------------------------------------- */
 #define NK 12
 static char KEYS[NK][40];       /* different lengths: a copy made with somebody else's length shows */
@@ -109,7 +127,7 @@ static void run_tree(long caseno) {
     for (int op = 0; op < nops && !abandon; op++) {
         int id = (int)rng_below(&R, NK); uint32_t c = rng_below(&R, 100); bool mut = false;
         size_t kl = strlen(KEYS[id]) + 1;
-        if (c < 35) { int kind = (int)rng_below(&R, 3); size_t vl = gval(kind); cb_t k = cb(KEYS[id], kl), v = cb(VB, vl);
+        if (c < 35) { int kind = (int)rng_below(&R, 3); size_t vl0 = vctr, vl = gval_near(kind, MP[id] ? MV[id] : NULL, MP[id] ? MVL[id] : 0); if (vl && memchr(VB, 0, vl - 1)) kind = 0; (void)vl0; cb_t k = cb(KEYS[id], kl), v = cb(VB, vl);
             vf_log("put %s v=%s", KEYS[id], vf_hex(VB, vl));
             bool r = kind == 1 && rng_chance(&R, 1, 2) ? (rng_chance(&R, 1, 2) ? T->putstrf(T, (char *)k.p, "%s", (char *)v.p) : T->putstr(T, (char *)k.p, (char *)v.p)) : T->putobj(T, k.p, k.n, v.p, v.n);
             cb_kill(&k); cb_kill(&v); if (!r) { bad("put-failed", "put failed"); break; } mm_put(id, VB, vl); mut = true; }
@@ -150,7 +168,7 @@ static void run_hashtbl(long caseno) {
     int nops = VF.thorough ? 2000 : 800;
     for (int op = 0; op < nops && !abandon; op++) {
         int id = (int)rng_below(&R, NK); uint32_t c = rng_below(&R, 100); bool mut = false;
-        if (c < 40) { int kind = (int)rng_below(&R, 3); size_t vl = gval(kind); cb_t k = cb(KEYS[id], strlen(KEYS[id]) + 1), v = cb(VB, vl);
+        if (c < 40) { int kind = (int)rng_below(&R, 3); size_t vl0 = vctr, vl = gval_near(kind, MP[id] ? MV[id] : NULL, MP[id] ? MVL[id] : 0); if (vl && memchr(VB, 0, vl - 1)) kind = 0; (void)vl0; cb_t k = cb(KEYS[id], strlen(KEYS[id]) + 1), v = cb(VB, vl);
             vf_log("put %s v=%s", KEYS[id], vf_hex(VB, vl));
             bool r = kind == 1 && rng_chance(&R, 1, 2) ? (rng_chance(&R, 1, 2) ? T->putstrf(T, (char *)k.p, "%s", (char *)v.p) : T->putstr(T, (char *)k.p, (char *)v.p)) : T->put(T, (char *)k.p, v.p, v.n);
             cb_kill(&k); cb_kill(&v); if (!r) { bad("put-failed", "put failed"); break; } mm_put(id, VB, vl); mut = true; }
@@ -184,7 +202,7 @@ static void run_hasharr(long caseno) {
     int nops = VF.thorough ? 2000 : 800;
     for (int op = 0; op < nops && !abandon; op++) {
         int id = (int)rng_below(&R, NK); uint32_t c = rng_below(&R, 100); bool mut = false;
-        if (c < 40) { int kind = (int)rng_below(&R, 3); size_t vl = gval(kind); cb_t k = cb(KEYS[id], strlen(KEYS[id]) + 1), v = cb(VB, vl);
+        if (c < 40) { int kind = (int)rng_below(&R, 3); size_t vl0 = vctr, vl = gval_near(kind, MP[id] ? MV[id] : NULL, MP[id] ? MVL[id] : 0); if (vl && memchr(VB, 0, vl - 1)) kind = 0; (void)vl0; cb_t k = cb(KEYS[id], strlen(KEYS[id]) + 1), v = cb(VB, vl);
             vf_log("put %s v=%s", KEYS[id], vf_hex(VB, vl));
             bool r = kind == 1 && rng_chance(&R, 1, 2) ? (rng_chance(&R, 1, 2) ? T->putstrf(T, (char *)k.p, "%s", (char *)v.p) : T->putstr(T, (char *)k.p, (char *)v.p)) : T->put_by_obj(T, k.p, k.n, v.p, v.n);
             cb_kill(&k); cb_kill(&v);
